@@ -331,3 +331,52 @@ def explore_choices(run_batch, base, max_depth, max_runs=4000, branch_cap=4):
             for k in range(width):
                 frontier.append(p + [k])
     return done_sc, done_tr
+
+
+# ---------------------------------------------------------------- conditional processors inside the engines
+def _cond_expr(tags_matching, err_tag=None):
+    """a real condition template over the tag the fake source puts into the metadata: true exactly for the given
+    tags; for err_tag it renders something that is not a boolean (the condition cannot be evaluated)"""
+    key = '(index .Metadata "verif.tag")'
+    if not tags_matching:
+        body = '{{ eq %s "no-such-tag" }}' % key
+    elif len(tags_matching) == 1:
+        body = '{{ eq %s "%s" }}' % (key, tags_matching[0])
+    else:
+        body = "{{ or %s }}" % " ".join('(eq %s "%s")' % (key, t) for t in tags_matching)
+    if err_tag:
+        return '{{ if eq %s "%s" }}not-a-boolean{{ else }}%s{{ end }}' % (key, err_tag, body[3:-3].join(["{{ ", " }}"]))
+    return body
+
+
+def cond_scenarios(engine, sizes=(3, 4), with_short=True, with_err=True, window=0, threshold=0):
+    """one batch of n records through a processor with a condition, EVERY match mask: matched records are modified by
+    the plugin, the others pass through untouched and must keep their place; variants: the plugin answers short (the
+    rest is retried), and the condition of one record cannot be evaluated (that record alone is an error)"""
+    out = []
+    for n in sizes:
+        tags = ["s1#%d" % (k + 1) for k in range(n)]
+        for mask in range(1 << n):
+            matching = [t for k, t in enumerate(tags) if mask >> k & 1]
+            variants = [("plain", None, None)]
+            if with_short and len(matching) >= 2:
+                variants.append(("short", 1, None))
+            if with_err:
+                for k, t in enumerate(tags):
+                    if k >= 1 and k == (mask % n):   # one error place per mask keeps the family small
+                        variants.append(("conderr", None, t))
+                        if with_short and len([m for m in matching if m != t]) >= 2:
+                            variants.append(("conderr-short", 1, t))
+            for vname, short, err_tag in variants:
+                p = proc("p1", "pipeline", 1, {t: "modify" for t in tags}, cond=_cond_expr([m for m in matching if m != err_tag], err_tag))
+                if short is not None:
+                    p["short"] = {"1": short}
+                sc = scenario("%s-cond-%d-%02d-%s" % (engine, n, mask, vname), engine,
+                              [src("s1", n, [n], gated=False)], [dst("d1", gated=False)], [p], window, threshold,
+                              [{"do": "Settle"}], dlq_cfg={"gated": False})
+                # every failure of this family is an observable input: nothing is rejected, the plugin never answers
+                # with an error, the only record that may fail is the one whose condition cannot be evaluated
+                sc["features"] = sorted(set(features_of(sc)) | {"cond-mask", "cond-" + vname, "dlq-justified"} |
+                                        ({"conderr:" + err_tag} if err_tag else set()))
+                out.append(sc)
+    return out
